@@ -40,7 +40,7 @@ def call(pts, ts, unit=1.0, day=(2020, 6, 15), coarse=False, scale=1.0):
     e = {"ev": "kin", "pts": [list(p) for p in pts], "ts": list(ts), "raised": False, "abs": [], "abs2": [], "abs3": [], "speed": [], "speed2": [],
          "pre": [], "post": [], "coarse": coarse, "tick_ms": int(round(unit * 1000))}
     tol = 1e-9 if unit == 1.0 else 1e-6
-    e["scale"] = "2^-14" if scale != 1.0 else "1"
+    e["scale"] = "2^-14" if scale < 0.01 else str(scale)
     if unit == 1.0:
         # a quarter of the second-clocked tracks start 3 s before the end of a month or of a year (the elapsed time between
         # two fixes does not depend on the calendar)
@@ -153,7 +153,7 @@ def job_random(args):
         ts = [0]
         for _k in range(n):
             ts.append(ts[-1] + rnd.choice([0, 0, 1, 1, 2, 3, 7, 60]))
-        out.append(call(pts, ts, scale=rnd.choice([1.0, 1.0, TINY])))
+        out.append(call(pts, ts, scale=rnd.choice([1.0, 1.0, TINY, 0.1])))
     return out
 
 
